@@ -272,6 +272,8 @@ def main():
         bad = 0
         for r in rs:
             r2 = dict(r); r2.pop("items", None); r2.pop("functions", None)
+            for f in r["failed"]:
+                print("FAILED %s :: input=%s" % (f.get("obligation"), str(f.get("input"))[:300]))
             print(json.dumps(r2, indent=1)[:6000])
             bad += len(r["failed"])
         sys.exit(1 if bad else 0)
